@@ -257,6 +257,19 @@ pub fn with_congruent_prices(out: &mut Vec<Plan>, label: &str, profile: &Profile
     out.push(plan(&format!("{}: prices 100, 164, 65636 (equal modulo 64 / 65536)", label), p, levels, depth));
 }
 
+/// Who owns the orders: everywhere else every order has a trader of its own; here one trader owns
+/// every order (so both sides of every trade) or two traders alternate. The properties say nothing
+/// that depends on the trader id, so whatever reads it must not change any behaviour.
+pub fn with_traders(out: &mut Vec<Plan>, label: &str, profile: &Profile, levels: usize, depth: usize) {
+    for (k, what) in [(1u32, "one trader owns every order"), (2, "two traders alternate")] {
+        let mut p = profile.clone();
+        p.name = format!("{}@traders{}", p.name, k);
+        p.trader_base = 7;
+        p.trader_mod = k;
+        out.push(plan(&format!("{}: {}", label, what), p, levels, depth));
+    }
+}
+
 pub fn with_bases(out: &mut Vec<Plan>, label: &str, profile: &Profile, levels: usize, depth: usize) {
     for (name, base) in base_states(profile) {
         let mut p = profile.clone();
@@ -373,6 +386,7 @@ pub fn c01(tier: &str) -> i32 {
     rp.modify_vols = vec![1, 3];
     plans.push(plan("core + modify (re-priced orders match by the same rules)", rp.clone(), 3, if t { 5 } else { 4 }));
     with_congruent_prices(&mut plans, "core + modify", &rp, 3, if t { 5 } else { 4 });
+    with_traders(&mut plans, "core + modify", &rp, 3, if t { 5 } else { 4 });
     {
         let mut ob = rp.clone();
         ob.limit_vols = vec![2];
@@ -487,6 +501,7 @@ pub fn c02(tier: &str) -> i32 {
     }
     let main = mk("views-tick1", 1, 10);
     with_congruent_prices(&mut plans, "main", &main, 3, if t { 5 } else { 4 });
+    with_traders(&mut plans, "main", &main, 3, if t { 4 } else { 3 });
     {
         let mut ob = main.clone();
         ob.prices = vec![10, 11];
@@ -562,6 +577,7 @@ pub fn c03(tier: &str) -> i32 {
     p.toggles = true;
     p.reset_tv = true;
     plans.push(plan("core + modify + toggles + counter reset, tick 1", p.clone(), 3, if t { 5 } else { 4 }));
+    with_traders(&mut plans, "core + modify + toggles + counter reset", &p, 3, if t { 5 } else { 4 });
     {
         let mut ob = p.clone();
         ob.prices = vec![10, 11];
@@ -660,6 +676,7 @@ pub fn c04(tier: &str) -> i32 {
     p.limit_vols = vec![2];
     p.market_vols = vec![1, 3];
     plans.push(plan("place/cancel/modify on every id in every status, toggles, set_time", p.clone(), 3, if t { 5 } else { 4 }));
+    with_traders(&mut plans, "every request on every id in every status", &p, 3, if t { 4 } else { 3 });
     let mut pe = p.clone();
     pe.name = "lifecycle-events".into();
     pe.events = true;
@@ -769,6 +786,7 @@ pub fn c06(tier: &str) -> i32 {
     p2.market_vols = vec![1];
     p2.modify_vols = vec![1, 2, 3];
     plans.push(plan("reduced alphabet, deeper", p2.clone(), 3, if t { 6 } else { 5 }));
+    with_traders(&mut plans, "reduced alphabet", &p2, 3, if t { 5 } else { 4 });
     {
         let mut cg = p2.clone();
         cg.modify_vols = vec![1];
@@ -910,6 +928,7 @@ pub fn c13(tier: &str) -> i32 {
     p.modify_prices = true;
     p.modify_vols = vec![3];
     plans.push(plan("core + modify + toggles, trading on at start", p.clone(), 3, if t { 5 } else { 4 }));
+    with_traders(&mut plans, "core + modify + toggles", &p, 3, if t { 4 } else { 3 });
     let mut poff = p.clone();
     poff.name = "toggles-start-off".into();
     poff.start_trading = false;
@@ -1014,6 +1033,7 @@ pub fn c05_book(out: &mut Outcome, t: bool) {
     p.limit_vols = vec![2];
     p.market_vols = vec![1, 3];
     plans.push(plan("modify + reload, clock {0,+1}", p.clone(), 3, if t { 5 } else { 4 }));
+    with_traders(&mut plans, "modify + reload, clock {0,+1}", &p, 3, if t { 4 } else { 3 });
     let mut q = core.clone();
     q.name = "ties-create-place".into();
     q.create_place = true;
